@@ -5,7 +5,6 @@ import framework as fw
 import relational
 
 ALGOS = relational.C15_LABEL_ALGOS
-LEAN_EXTRA = ["PyXABProofs.Props.C06"]
 GROUP = relational.c15_group
 PID = "C15"
 RULE = ("for each algorithm a base run (labels 1..T, no queries) and variants with the SAME configuration, rewards and draws but "
